@@ -5,6 +5,17 @@ import tempfile
 from . import common, models
 
 
+def unproxy(v):
+    """a resolved (or resolvable) proxy stands for its target; a proxy that cannot be resolved is not judged"""
+    if hasattr(v, 'force_resolve') and hasattr(v, '_proxy_path'):
+        try:
+            v.force_resolve()
+        except Exception:
+            return None
+        return v._wrapped if getattr(v, 'resolved', False) else None
+    return v
+
+
 def wellformed(roots):
     """C01-C03 on a loaded model, by reflection: symmetric opposites, consistent containers, typed values"""
     objs = []
@@ -19,11 +30,14 @@ def wellformed(roots):
         for f in o.eClass.eAllReferences():
             vals = list(o.eGet(f)) if f.many else ([o.eGet(f)] if o.eGet(f) is not None else [])
             for v in vals:
+                v = unproxy(v)
+                if v is None:
+                    continue
                 if not isinstance(v, f.eType.python_class if hasattr(f.eType, 'python_class') else object):
                     return f'{o.eClass.name}.{f.name} holds a {type(v).__name__}'
                 if f.eOpposite is not None:
                     back = v.eGet(f.eOpposite)
-                    ok = any(b is o for b in back) if f.eOpposite.many else back is o
+                    ok = any(unproxy(b) is o for b in back) if f.eOpposite.many else unproxy(back) is o
                     if not ok:
                         return f'{o.eClass.name}.{f.name} -> {v.eClass.name} is not mirrored by {f.eOpposite.name}'
                 if f.containment and (v.eContainer() is not o or v.eContainmentFeature() is not f):
